@@ -1073,7 +1073,7 @@ pub fn extract<'tcx>(tcx: TyCtxt<'tcx>, krate: &str, tag: &str, nonce: &str) -> 
                 // pre-transform body (logical CFG with Yield terminators) for coroutines
                 if is_coroutine {
                     // make sure the (overridden) query ran, then read our saved copy
-                    let _ = tcx.mir_drops_elaborated_and_const_checked(ldid);
+                    let _ = tcx.mir_promoted(ldid);
                     if let Some(pre) = crate::saved_pre_body(tcx, ldid) {
                         o = o.k("pre", cx.body_j(pre, did));
                     }
